@@ -113,6 +113,35 @@ def flag_writes(attrs=("titratable", "cysteine_bridge", "exclude_cys_from_result
     return out
 
 
+def list_mutations(attr="non_covalently_coupled_groups"):
+    """every place that can change the list held in attribute `attr`: assignments to it (through flag_writes) and calls of a mutating list
+    method on it: (file, function, kind, target, argument / value, enclosing if-conditions)"""
+    out = [(f, fn, "assign", tgt, val, g) for (f, fn, a, tgt, val, g) in flag_writes(attrs=(attr,)) if a == attr]
+    methods = ("append", "extend", "insert", "remove", "pop", "clear", "sort", "reverse", "__iadd__", "__setitem__", "__delitem__")
+    for f in sorted((common.REPO / "propka").glob("*.py")):
+        tree = ast.parse(f.read_text())
+
+        def walk(node, fn, guards):
+            for field, value in ast.iter_fields(node):
+                for ch in (value if isinstance(value, list) else [value]):
+                    if not isinstance(ch, ast.AST):
+                        continue
+                    nf, ng = fn, guards
+                    if isinstance(ch, (ast.FunctionDef, ast.ClassDef)):
+                        nf, ng = (fn + "." if fn else "") + ch.name, ()
+                    if isinstance(node, ast.If) and field in ("body", "orelse"):
+                        t = ast.unparse(node.test)
+                        ng = guards + ((t if field == "body" else f"not ({t})"),)
+                    if isinstance(ch, ast.Call) and isinstance(ch.func, ast.Attribute) and ch.func.attr in methods \
+                            and isinstance(ch.func.value, ast.Attribute) and ch.func.value.attr == attr:
+                        out.append((f.name, nf or "<module>", ch.func.attr, ast.unparse(ch.func.value), ", ".join(ast.unparse(a) for a in ch.args), " and ".join(ng)))
+                    if isinstance(ch, (ast.AugAssign, ast.Delete, ast.Subscript)) and attr in ast.unparse(ch) and isinstance(ch, (ast.AugAssign, ast.Delete)):
+                        out.append((f.name, nf or "<module>", type(ch).__name__, ast.unparse(ch)[:60], "", " and ".join(ng)))
+                    walk(ch, nf, ng)
+        walk(tree, "", ())
+    return out
+
+
 def bridged_sentinel():
     """the value Group.calculate_total_pka assigns when the atom is bridged: the function must BEGIN with
     `if self.atom.cysteine_bridge: self.pka_value = <constant>; return`"""
@@ -350,6 +379,9 @@ def regenerate():
     inv += ["(* every assignment to the titration flags and to the bridge flag: (file, function, attribute, target, value, guards) *)",
             "Definition flag_writes : list (string * string * string * string * string * string) :=\n  "
             + clist(["(" + ", ".join(cstr(x) for x in row) + ")" for row in flag_writes()]) + ".", ""]
+    inv += ["(* every place that can change a group's list of non-covalently coupled partners: (file, function, kind, target, argument, guards) *)",
+            "Definition coupling_writes : list (string * string * string * string * string * string) :=\n  "
+            + clist(["(" + ", ".join(cstr(x) for x in row) + ")" for row in list_mutations()]) + ".", ""]
     bs = bridged_sentinel()
     inv += ["From Coq Require Import QArith.", "(* pKa value Group.calculate_total_pka reports for a bridged cysteine (early return at the top of the function) *)",
             "Definition bridged_pka_sentinel : option Q := " + (f"Some (Qmake ({bs.numerator})%Z {bs.denominator}%positive)" if bs is not None else "None") + ".", ""]
